@@ -135,6 +135,14 @@ def edit_column(sql, column, how):
     return None
 
 
+def recase(name):
+    """The same identifier spelt with the case of one letter changed (the last letter that has a case)."""
+    for i in range(len(name) - 1, -1, -1):
+        if name[i].isalpha() and name[i].swapcase() != name[i]:
+            return name[:i] + name[i].swapcase() + name[i + 1:]
+    return None
+
+
 def enumerate_mutations(path):
     con = sqlite3.connect(path)
     sig = signature(con)
@@ -142,6 +150,9 @@ def enumerate_mutations(path):
     for t, cols in sig["tables"].items():
         muts.append(("drop_table", t))
         muts.append(("rename_table", t))
+        muts.append(("recase_table", t))
+        for c in cols:
+            muts.append(("recase_column", t, c[0]))
         muts.append(("add_column", t))
         for c in cols:
             name = c[0]
@@ -158,6 +169,7 @@ def enumerate_mutations(path):
             muts.append(("index_uniqueness", i))
             muts.append(("index_columns", i))
             muts.append(("rename_index", i))
+            muts.append(("recase_index", i))
     muts.append(("add_table",))
     muts.append(("add_table", "AaaVerifExtraTable"))
     muts.append(("add_table", "zzzVerifExtraTable"))
@@ -274,6 +286,25 @@ def apply_mutation(path, m):
             t = m[1]
             col = before["tables"][t][0][0]
             con.execute('CREATE INDEX verif_extra_index_%s ON "%s" ("%s")' % (t, t, col))
+        elif kind == "recase_table":
+            new = recase(m[1])
+            if not new:
+                return False, "not applicable"
+            con.execute('ALTER TABLE "%s" RENAME TO "verif_tmp_name"' % m[1])
+            con.execute('ALTER TABLE "verif_tmp_name" RENAME TO "%s"' % new)
+        elif kind == "recase_column":
+            new = recase(m[2])
+            if not new:
+                return False, "not applicable"
+            con.execute('ALTER TABLE "%s" RENAME COLUMN "%s" TO "verif_tmp_name"' % (m[1], m[2]))
+            con.execute('ALTER TABLE "%s" RENAME COLUMN "verif_tmp_name" TO "%s"' % (m[1], new))
+        elif kind == "recase_index":
+            new = recase(m[1])
+            sql = _index_sql(con, m[1])
+            if not new or not sql:
+                return False, "not applicable"
+            con.execute('DROP INDEX "%s"' % m[1])
+            con.execute(re.sub(re.escape(m[1]), new, sql, count=1))
         elif kind == "analyze":
             # what ANALYZE / PRAGMA optimize by any other software leaves behind: the table sqlite_stat1
             con.execute("ANALYZE")
